@@ -40,6 +40,13 @@ namespace bloch::runtime {
         int measure(int q);
         std::string getQasm() const;
         size_t stateSize() const { return m_state.size(); }
+#ifdef BLOCH_VERIF
+        // Read-only projections for the conformance harnesses.
+        const std::vector<std::complex<double>>& verifState() const { return m_state; }
+        const std::vector<bool>& verifMeasured() const { return m_measured; }
+        int verifQubits() const { return m_qubits; }
+        size_t verifOpCount() const { return m_ops.size(); }
+#endif
 
        private:
         int m_qubits = 0;
